@@ -370,7 +370,7 @@ fn position_sources() -> Vec<Vec<u8>> {
         "{ [1]: 2 }", "{ [\"a\"]: 1, [\"a\"]: 2 }", "1 / 0", "1 << -1", "std.pow(10, 400)", "\"a\"[7]", "[1, 2][0.5]", "{} < {}", "(function(x) x)(1, 2)",
         "(function(x) x)(y=1)", "(function(x) x)()", "std.parseJson(\"{\")", "std.extVar(\"nope\")", "if 1 then 2", "[x for x in 3]", "1 % \"a\"",
         "\"%d\" % \"a\"", "std.assertEqual(1, 2)", "std.manifestJson(function() 1)", "|||\n x\n y", "'\\q'", "\"\\ud800\"", "1.e", "0x1", "@", "\u{7f}", "/* open",
-        "std.native(\"zz\")(1)", "{a: {b: {c: error \"nested\"}}}", "[[[1, error \"arr\"]]]", "{a: self.b, b: self.a}", "std.toString({a: error \"ts\"})",
+        "std.native(\"zz\")(1)", "|||\n  a\n", "|||\n  a\n ", "|||\n  a\n x", "|||\n  a", "|||", "||| x", "|||\nx", "\"abc", "'a\\", "\"\\u12", "\"\\ud800\\u0041\"", "/*", "1e", "1.", "0_", "@x", "{a: {b: {c: error \"nested\"}}}", "[[[1, error \"arr\"]]]", "{a: self.b, b: self.a}", "std.toString({a: error \"ts\"})",
         "{a: 1} == {a: error \"eq\"}", "[1, error \"cmp\"] < [1, 2]", "std.map(function(x) error \"m\", [1])", "std.foldl(function(a, b) a + b, [1, \"x\"], 0)",
     ];
     let suffixes: &[&[u8]] = &[b"", b"\n", b" ", b"\r\n\t"];
